@@ -233,6 +233,16 @@ func checkC17(c *Ctx, r *Report) {
 	checkFreshLayers(c, r, "fresh-layers")
 	checkSerialisersOverwrite(c, r)
 
+	// state that outlives a packet or a command, other than decoded fields: the session's keyed
+	// hash must be left clean by every function that writes into it, on its error paths too (a
+	// rejected reply must not leak into the next request's AuthCode; rule shared with C03) ...
+	checkHashAlwaysReset(c, r)
+	// ... and what a retried operation shares with the function that started it — the
+	// first-attempt state, the terminal error — is per call: allocated by the call or stored by
+	// it before the retries start, never what an earlier command left in the session or
+	// connection (rules shared with C10, C13)
+	checkClosureExits(c, r)
+
 	// the command's response value is decoded on every successful call: a reused command
 	// (a sensor reader polling, the SDR walk) must never report the previous response
 	r.Rule("response-always-decoded", "whenever the command has a response layer, every error-free return of SendCommand has decoded the reply's payload into it", 2)
